@@ -937,3 +937,69 @@ func TestGovcReplay(t *testing.T) {
 		},
 	})
 }
+
+func init() {
+	harnesses = append(harnesses, &harness{
+		name:      "downstream token replay (setupRetry / cleanUp on a hand-built downStream)",
+		modelFree: true,
+		match: func(o *Obligation) bool {
+			return o.Kind == "post" && (strings.Contains(o.Func, "proxy.(*downStream).setupRetry") || strings.Contains(o.Func, "proxy.(*downStream).cleanUp"))
+		},
+		run: func(eng *Engine, o *Obligation) *ReplayOutcome {
+			src := `package proxy
+
+import (
+	"fmt"
+	"sync/atomic"
+	"testing"
+	"time"
+
+	"mosn.io/pkg/utils"
+)
+
+// The failed postcondition says: after setupRetry the once-only response token may still be taken (so the
+// retried attempt's response and both timers lose their CompareAndSwap and the request is never answered),
+// or after cleanUp a timer is still referenced. Replay on hand-built streams, for each combination of
+// "per-try timer armed" and endStream.
+func TestGovcReplay(t *testing.T) {
+	for _, armed := range []bool{false, true} {
+		for _, end := range []bool{false, true} {
+			s := &downStream{}
+			s.upstreamRequest = &upstreamRequest{downStream: s}
+			if armed {
+				s.perRetryTimer = utils.NewTimer(time.Hour, func() {})
+			}
+			atomic.StoreUint32(&s.upstreamResponseReceived, 1) // the failed try owned the token
+			s.setupRetry(end)
+			if v := atomic.LoadUint32(&s.upstreamResponseReceived); v != 0 {
+				fmt.Printf("REPLAY-CONFIRMED setupRetry(endStream=%v) with per-try timer armed=%v leaves upstreamResponseReceived=%d: no party can win the token for the retried attempt\n", end, armed, v)
+				return
+			}
+			if s.perRetryTimer != nil {
+				fmt.Printf("REPLAY-CONFIRMED setupRetry leaves the per-try timer of the abandoned attempt armed\n")
+				return
+			}
+		}
+	}
+	for _, mask := range []int{1, 2, 3} {
+		s := &downStream{}
+		if mask&1 != 0 {
+			s.perRetryTimer = utils.NewTimer(time.Hour, func() {})
+		}
+		if mask&2 != 0 {
+			s.responseTimer = utils.NewTimer(time.Hour, func() {})
+		}
+		s.cleanUp()
+		if s.perRetryTimer != nil || s.responseTimer != nil {
+			fmt.Printf("REPLAY-CONFIRMED cleanUp leaves a timer referenced (perTry=%v global=%v)\n", s.perRetryTimer != nil, s.responseTimer != nil)
+			return
+		}
+	}
+	fmt.Println("REPLAY-NOT-REPRODUCED")
+}
+`
+			out, _ := runOverlayTest("pkg/proxy", src, "^TestGovcReplay$")
+			return outcomeFromOutput(src, out)
+		},
+	})
+}
